@@ -86,6 +86,14 @@ def r2(ctx):
 
 @rule("C04", "R3", "TERM", "the joint label list is cut at cumulative stacked lengths, in input order", floor=2)
 def r3(ctx):
+    ctx.reformulable = True      # a shape template of a five-line sequence algorithm: see RuleCtx._foreign_combinators
+    try:
+        _r3(ctx)
+    finally:
+        ctx.reformulable = False
+
+
+def _r3(ctx):
     ana = ctx.ana
     fi = ana.func(SPLIT)
     b = ana.builder(fi, no_inline=ana.known)
@@ -107,7 +115,10 @@ def r3(ctx):
     ctx.check(hi in his, fi, "slice k ends at the cumulative length e_k", role="end", expected=str(his[0]), found=str(hi))
     want_lo = PW([(tm.compare("==", k, 0), tm.ZERO), (tm.compare("!=", k, 0), Idx(E, (tm.add(k, -1),)))])
     alt = Idx(Cat([Lst([tm.ZERO]), E]), (k,))
-    ctx.check(lo is not None and (lo == want_lo or lo == alt), fi, "slice k starts at e_{k-1} (0 for the first series): parts are adjacent and disjoint",
+    # ([0] + E[:-1])[k]: for k >= 1 the position k-1 <= n-2 lies inside the prefix E[:-1], so E[:-1][k-1] is E[k-1]
+    E_cut = Idx(E, (Slc(None, tm.const(-1), None),))
+    alt2 = PW([(tm.compare("==", k, 0), tm.ZERO), (tm.compare("!=", k, 0), Idx(E_cut, (tm.add(k, -1),)))])
+    ctx.check(lo is not None and (lo == want_lo or lo == alt or lo == alt2), fi, "slice k starts at e_{k-1} (0 for the first series): parts are adjacent and disjoint",
               role="start", expected=str(want_lo), found=str(lo))
 
 
